@@ -42,7 +42,6 @@ type vfC14Case struct {
 	dirty      bool
 	nontrivial bool
 	classes    map[string]bool
-	writesOK   int
 	excluded   []string // generated writes left out because of a listed finding (signature each)
 }
 
@@ -355,7 +354,6 @@ func (c *vfC14Case) commit(p *vfC14Prepared, who string, rev string, doc *Docume
 	} else if info == nil && !w.deleted {
 		c.harness("write %s: accepted live revision %s is not in the stored revision tree", w.render(c.contents), rev)
 	}
-	c.writesOK++
 	for _, a := range r.atts {
 		d.everRef[c.key(w.doc, a.content)] = true
 	}
